@@ -13,7 +13,6 @@ import (
 	"google.golang.org/grpc/metadata"
 	"google.golang.org/grpc/status"
 	"google.golang.org/protobuf/encoding/protojson"
-	"google.golang.org/protobuf/proto"
 	"google.golang.org/protobuf/types/known/emptypb"
 
 	"verifharness/vh"
@@ -79,7 +78,7 @@ type group struct {
 
 var sessStates = []string{"valid", "expired", "userDeactivated", "permissionChanged", "loggedOut"}
 
-func (w *world) runMatrix(roles, kinds []string) {
+func (w *world) runMatrix(roles, kinds, tokenSels []string) {
 	w.res.Extra["rpcs"] = len(w.rpcs)
 	for _, role := range roles {
 		u := w.users[role]
@@ -92,7 +91,7 @@ func (w *world) runMatrix(roles, kinds []string) {
 		for _, kind := range kinds {
 			sels := []string{"own", "other", "system"}
 			if kind == "token" {
-				sels = append(sels, "none")
+				sels = tokenSels
 			}
 			for _, sel := range sels {
 				for _, st := range sessStates {
@@ -180,7 +179,7 @@ func (g *group) establish() bool {
 	switch g.state {
 	case "valid":
 	case "expired":
-		deadline := time.Now().Add(5 * time.Second)
+		deadline := time.Now().Add(10 * time.Second)
 		for w.srv.SessManager.SessionPresent(sl.id) {
 			if time.Now().After(deadline) {
 				buf := make([]byte, 1<<20)
@@ -190,7 +189,7 @@ func (g *group) establish() bool {
 						fmt.Fprintln(os.Stderr, gr)
 					}
 				}
-				vh.Fatalf("session did not expire within 5 s (timeout %v)", sessionTimeout)
+				vh.Fatalf("session did not expire within 10 s (timeout %v)", sessionTimeout)
 			}
 			time.Sleep(10 * time.Millisecond)
 		}
@@ -396,7 +395,7 @@ func (g *group) runCell(r *rpcCase) {
 			return
 		}
 		sig := signature(k, db, sv, r.key())
-		if g.staleSig != "" && sv.st != "valid" && sig[:14] != "systemdb-write" {
+		if g.staleSig != "" && sv.st != "valid" && !strings.HasPrefix(sig, "systemdb-write") {
 			sig = g.staleSig // history replay: a request authorised by a session / token the policy considers dead
 		}
 		if len(w.badLines) == 0 || w.badLines[len(w.badLines)-1] != line {
@@ -487,6 +486,3 @@ func signature(k, db string, sv *slot, rpc string) string {
 	}
 	return what + ":" + rpc
 }
-
-var _ = strings.Join
-var _ proto.Message
